@@ -25,20 +25,24 @@ EXTENDS Naturals, FiniteSets, TLC
 CONSTANTS Flavour,      \* "bzr" | "git"
           Paths,        \* namespace: subset of Universe closed under Par
           InitKinds,    \* subset of {"empty", "pop"}
-          MaxDepth      \* sequences of at most this many calls are explored
+          MaxDepth,     \* sequences of at most this many calls are explored
+          Passive       \* paths no call is aimed at: by-standers whose NAMES have a directory's name as a string prefix
+                        \* (d2/, d2/a, da next to d/); whatever is done to d/ must leave them alone
 VARIABLES disk, ver, basis, last, obs,
           calls         \* number of calls made so far (bounds the exploration only)
 vars == <<disk, ver, basis, last, obs, calls>>
 
-Universe == {"a", "b", "d", "d/a", "e", "e/a"}
-ASSUME Paths \subseteq Universe
-Par(p)  == CASE p = "d/a" -> "d" [] p = "e/a" -> "e" [] OTHER -> ""
-Name(p) == CASE p \in {"d/a", "e/a"} -> "a" [] OTHER -> p
+Universe == {"a", "b", "d", "d/a", "e", "e/a", "d2", "d2/a", "da"}
+ASSUME Paths \subseteq Universe /\ Passive \subseteq Paths
+Par(p)  == CASE p = "d/a" -> "d" [] p = "e/a" -> "e" [] p = "d2/a" -> "d2" [] OTHER -> ""
+Name(p) == CASE p \in {"d/a", "e/a", "d2/a"} -> "a" [] OTHER -> p
 Join(dir, n) == IF dir = "" THEN n
                 ELSE IF dir = "d" /\ n = "a" THEN "d/a"
-                ELSE IF dir = "e" /\ n = "a" THEN "e/a" ELSE "?"
+                ELSE IF dir = "e" /\ n = "a" THEN "e/a"
+                ELSE IF dir = "d2" /\ n = "a" THEN "d2/a" ELSE "?"
 ASSUME \A p \in Paths : Par(p) = "" \/ Par(p) \in Paths
-DirNames == {p \in Paths : \E q \in Universe : Par(q) = p}     \* names Mkdir is tried on
+Active == Paths \ Passive                                       \* what calls are aimed at
+DirNames == {p \in Active : \E q \in Universe : Par(q) = p}    \* names Mkdir is tried on
 Contents == {"x", "y"}
 
 NONE == [k |-> "none", c |-> "", e |-> FALSE]
@@ -109,9 +113,11 @@ ObsConsistent == obs = Obs(disk, ver, basis)
 Res(dk, v, b, l) == [disk |-> dk, ver |-> v, basis |-> b, last |-> l]
 Rej(rule) == Res(disk, ver, basis, rule)                \* rule = "rejected:<the rule of this model that forbids the call>"
 Ok(dk, v) == Res(dk, v, basis, "ok")
-Step(r) == /\ disk' = r.disk /\ ver' = r.ver /\ basis' = r.basis /\ last' = r.last
-           /\ obs' = Obs(r.disk, r.ver, r.basis)
+\* (x: TLC evaluates an operator argument anew at every use; a LET definition once)
+Step(r) == LET x == r IN
            /\ calls < MaxDepth /\ calls' = calls + 1
+           /\ disk' = x.disk /\ ver' = x.ver /\ basis' = x.basis /\ last' = x.last
+           /\ obs' = Obs(x.disk, x.ver, x.basis)
 
 \* moving the subtree at src to dst in a path-indexed function (blank = value of a vacated / empty slot)
 Occupied(src) == {s \in Under(src) : Has(disk, s) \/ ver[s] # "no"}
@@ -249,8 +255,14 @@ RevertRes(S) ==
         \* left-overs below a path that is no directory any more, or that was moved aside, went away with it
         d2 == [p \in Paths |-> IF Par(p) # "" /\ ~inB(p) /\ (d1[Par(p)].k # "dir" \/ replaced(Par(p))) THEN NONE ELSE d1[p]]
     IN Res(d2, CleanVer(basis), basis, "ok")
-RevertTo(S) == /\ S \in SUBSET RevertCands /\ Step(RevertRes(S))
-Revert == \E S \in SUBSET Paths : RevertTo(S)
+\* (the Assert is the model property "directly after revert the tree has no changes against its basis and every basis
+\*  entry is back", evaluated where it applies; TLC stops with an error if it fails)
+RevertTo(S) == /\ S \in SUBSET RevertCands
+               /\ LET r == RevertRes(S) IN
+                  /\ Step(r)
+                  /\ Assert(Changes(r.disk, r.ver, r.basis) = {} /\ \A p \in Paths : basis[p].k # "none" => r.disk[p] = basis[p],
+                            "RevertIsClean")
+Revert == \E S \in SUBSET RevertCands : RevertTo(S)
 
 Reopen == /\ TRUE /\ Step(Ok(disk, ver))
 
@@ -259,18 +271,20 @@ InitState(kind) ==
     IF kind = "empty"
     THEN Res([p \in Paths |-> NONE], [p \in Paths |-> "no"], [p \in Paths |-> NONE], "ok")
     ELSE LET t == [p \in Paths |-> CASE p = "a" -> F("x", FALSE) [] p = "d" -> DIR [] p = "d/a" -> F("x", FALSE)
+                                     [] p = "d2" /\ p \in Passive -> DIR
+                                     [] p \in {"d2/a", "da"} /\ p \in Passive -> F("y", FALSE)     \* committed by-standers
                                      [] OTHER -> NONE]
              b == [p \in Paths |-> IF Flavour = "git" /\ t[p].k = "dir" THEN NONE ELSE t[p]]
          IN Res(t, CleanVer(b), b, "ok")
 Init == \E kind \in InitKinds : LET r == InitState(kind) IN
             /\ disk = r.disk /\ ver = r.ver /\ basis = r.basis /\ last = r.last /\ obs = Obs(r.disk, r.ver, r.basis) /\ calls = 0
 
-Next == \/ \E p \in Paths : Add(p) \/ Mkdir(p) \/ Chmod(p)
-        \/ \E p \in Paths, mode \in {"keep", "force"} : Remove(p, mode)
-        \/ \E p, q \in Paths : Rename(p, q)
-        \/ \E p \in Paths, dir \in DirNames \cup {""} : Move(p, dir)
-        \/ \E p \in Paths, c \in Contents : Edit(p, c)
-        \/ Commit \/ (\E S \in SUBSET Paths : RevertTo(S)) \/ Reopen
+Next == \/ \E p \in Active : Add(p) \/ Mkdir(p) \/ Chmod(p)
+        \/ \E p \in Active, mode \in {"keep", "force"} : Remove(p, mode)
+        \/ \E p, q \in Active : Rename(p, q)
+        \/ \E p \in Active, dir \in DirNames \cup {""} : Move(p, dir)
+        \/ \E p \in Active, c \in Contents : Edit(p, c)
+        \/ Commit \/ (\E S \in SUBSET Active : RevertTo(S)) \/ Reopen    \* (a constant set: TLC labels the edge RevertTo(S))
 Spec == Init /\ [][Next]_vars
 
 (* ------------------------------------------------------------------ properties of the model (checked by TLC) *)
@@ -278,8 +292,11 @@ Spec == Init /\ [][Next]_vars
 Rejected(l) == l # "ok"
 RejectedIsNoop == [][Rejected(last') => obs' = obs]_vars
 \* directly after commit / revert the tree has no changes against its basis
-CommitIsClean == [][Commit => obs'.changes = {}]_vars
-RevertIsClean == [][Revert => obs'.changes = {} /\ \A p \in Paths : basis[p].k # "none" => disk'[p] = basis[p]]_vars
+\* (only commit changes the basis; a commit that changes nothing was clean before.  RevertIsClean is the Assert in RevertTo:
+\*  as action properties these two would re-evaluate the Commit / Revert actions on every transition)
+CommitIsClean == [][basis' # basis => obs'.changes = {}]_vars
+\* whatever happens, the by-standers stay as committed (checked on the model; on the real tree they are part of obs)
+PassiveUntouched == \A p \in Passive : disk[p] = basis[p] \/ (Flavour = "git" /\ disk[p].k = "dir")
 \* anti-vacuity witnesses (the harness looks for such states in the graph TLC dumps; usable as INVARIANTs by hand)
 WitnessRenameReported == ~(\E r \in obs.changes : r.o # "" /\ r.n # "" /\ r.o # r.n)
 WitnessRejected == ~Rejected(last)
